@@ -106,11 +106,10 @@ func checkRender(t run.TB, c RenderCase) (judged bool) {
 	}
 	if w.TextDefined {
 		want := w.Text
-		rawLen := w.LineEnd - w.LineStart
-		if len(want) > 200 || len(text) > 200 || (rawLen > 200 && text != want) {
-			// truncated at 200 bytes: a prefix of the line followed by "..." (whether the 200 bytes are
-			// counted before or after the left-trim is not stated: a line that is longer than 200
-			// bytes only with its leading blanks may be shown either way)
+		if len(want) > 200 || len(text) > 200 {
+			// truncated at 200 bytes: a prefix of the left-trimmed line followed by "..." (a line that
+			// is longer than 200 bytes only with its leading blanks is shown in full: "left-trimmed,
+			// truncated" - the blanks go first)
 			if !strings.HasSuffix(text, "...") || !strings.HasPrefix(want, strings.TrimSuffix(text, "...")) || len(text) > 203 {
 				run.Fail(t, chkRender, c, "long line: SourceSubString()=%q (%d bytes) is not a <=200-byte prefix of the line plus \"...\"", text, len(text))
 			}
@@ -194,6 +193,10 @@ func TestRenderRandom(t *testing.T) {
 		var sb strings.Builder
 		for i := 0; i < nlines; i++ {
 			lead := strings.Repeat(rapid.SampledFrom([]string{" ", "\t", ""}).Draw(t, "lead"), rapid.IntRange(0, 6).Draw(t, "nlead"))
+			if rapid.IntRange(0, 7).Draw(t, "deepIndent") == 0 {
+				// indentation that alone (nearly) fills the 200 bytes a shown line may have
+				lead = strings.Repeat(rapid.SampledFrom([]string{" ", "\t"}).Draw(t, "deepLead"), rapid.IntRange(150, 260).Draw(t, "ndeep"))
+			}
 			sb.WriteString(lead)
 			l := rapid.IntRange(0, 30).Draw(t, "len")
 			chars := []string{"a", "b", " ", "{", "\"", "é", "€", "x", "\t"}
@@ -369,6 +372,10 @@ func TestValidationPositions(t *testing.T) {
 				}
 			}
 			n.Rules = keep
+			// "no other keys" written out (it is the default): an unknown key is still reported at the key
+			if n.Kind == ref.SObj && rapid.IntRange(0, 2).Draw(t, "explicitNoAdditional") == 0 {
+				n.Rules = append(n.Rules, gen.TokRule("additionalProperties", "false"))
+			}
 		})
 		schema := string(gen.PrintSchema(model, nil))
 		doc := gen.ShapeInstance(t, model, false, "inst")
